@@ -82,8 +82,8 @@ def check_state(ctx, fam, est, expect_len, desc, where):
 
 def run(ctx):
     cov = ctx.cov
-    N = ctx.scale(360, 8000)
-    nmax = ctx.scale(18, 80)
+    N = ctx.scale(360, 6000)
+    nmax = ctx.scale(18, 60)
     for i in range(N):
         r = gen.rng_for(ctx.seed, "C05", i)
         name = FAMS[i % len(FAMS)]
